@@ -41,6 +41,7 @@ class SimulationAlgorithm3DBase
 
     int Poisson(double lambda)
         {
+        if(!(lambda>0)) return 0;
         return std::poisson_distribution<int>(lambda)(rng);
         }
 
